@@ -55,8 +55,8 @@ func (p *DeletionParameters) ComputeInputHashDeletion() error {
 		return err
 	}
 	data = append(data, buf.Bytes()...)
-	data = append(data, p.PreRoot.Bytes()...)
-	data = append(data, p.PostRoot.Bytes()...)
+	data = append(data, leftPad32(p.PreRoot.Bytes())...)
+	data = append(data, leftPad32(p.PostRoot.Bytes())...)
 
 	hashBytes := keccak256.Hash(data)
 	p.InputHash.SetBytes(hashBytes)
